@@ -18,6 +18,8 @@ mod refparse;
 mod validate;
 mod rx_build;
 mod rx_import;
+mod rx_lexer;
+mod rx_syntax;
 
 fn main() {
     let args: Vec<String> = std::env::args().collect();
@@ -42,6 +44,8 @@ fn main() {
         "derive" => rx_derive::run(&args[2], &args[3], &opts),
         "build" => rx_build::run(&args[2], &args[3], &opts),
         "import" => rx_import::run(&args[2], &args[3], &opts),
+        "lexer" => rx_lexer::run(&args[2], &args[3], &opts),
+        "syntax" => rx_syntax::run(&args[2], &args[3], &opts),
         "cache" => rx_cache::run(&args[2], &args[3], &opts),
         "widths" => rx_font::run_widths(&args[2], &args[3], &opts),
         "cmap" => rx_font::run_cmap(&args[2], &args[3], &opts),
